@@ -23,7 +23,12 @@ RULE = ("Hypothesis-generated reaction states (vp/c10gen.py): 1-3 initial soluti
         "dump holds >= 3 entity kinds or an entity with non-default sub-structure, measured on the parsed dump (species "
         "gammas, isotope totals, surface model other than plain DDL, tied exchanger/surface, fixed-volume gas, phase options, "
         "non-ideal solid solution, >= 2 kinetic components / parameters / formula terms, MIX, multi-step reaction / "
-        "temperature / pressure); distinct by SHA-256 of the case")
+        "temperature / pressure); distinct by SHA-256 of the case.  Names with drawn lengths 1-40 (a third on the RAW writers' "
+        "column widths 21/23/25/27/29): REACTION reactants and KINETICS -formula tokens (long formulas such as CaCl2.0000000, a "
+        "long-named user PHASE), a long rate name, an exchanger element with a long name, solution descriptions, cell numbers "
+        "of 2-7 digits.  SOLUTION_MODIFY is exercised three ways: dumped valence names onto placeholders; bare element totals "
+        "(valence states summed) and a mixed bare/valence variant onto the restored solutions, each followed by an inventory "
+        "check (every element held once, with the amount handed over)")
 ASSUMPTIONS = ["the dump writes 14 significant digits; follow-up results are compared (1e-7 * scale + 10 * convergence_tolerance, "
                "KNOBS -convergence_tolerance 1e-12; pressures + 0.001 atm, the engine's own fixed-volume criterion) only where the "
                "follow-up is reproducible under noise of that size: redox-inert element sets (pe not compared) or O2-poised "
@@ -588,6 +593,74 @@ def _tok(x):
     return "%.14g" % float(x)      # the digits the dump holds
 
 
+def element_totals(e):
+    """{element: moles} of a parsed SOLUTION entity, valence states summed; H(0)/O(0) stay apart (they belong to total H/O)"""
+    out = {}
+    for name, v in R.nv(e.get("totals")).items():
+        base = name.split("(")[0]
+        key = name if base in ("H", "O") else base
+        out[key] = out.get(key, 0.0) + float(v)
+    return out
+
+
+def multi_valence_elements(e):
+    """elements (other than H, O) that the solution stores in two or more valence states"""
+    cnt = {}
+    for name in R.nv(e.get("totals")):
+        base = name.split("(")[0]
+        if "(" in name and base not in ("H", "O"):
+            cnt[base] = cnt.get(base, 0) + 1
+    return sorted(b for b, k in cnt.items() if k >= 2)
+
+
+def modify_elements_input(P1, mixed):
+    """SOLUTION_MODIFY blocks that restore *element* totals (bare names, valence states summed), total H, total O and charge
+    onto solutions that already exist; mixed=True: every second element (alphabetical) keeps its valence-state names"""
+    mod = []
+    for (kind, n), e in P1.items():
+        if kind != "SOLUTION":
+            continue
+        L = ["SOLUTION_MODIFY %d" % n, " -total_h %s" % _tok(e["total_h"]), " -total_o %s" % _tok(e["total_o"]),
+             " -cb %s" % _tok(e["cb"]), " -totals"]
+        sums = element_totals(e)
+        bases = sorted(k for k in sums if "(" not in k)
+        keep_valence = set(bases[1::2]) if mixed else set()
+        for name, v in R.nv(e.get("totals")).items():
+            base = name.split("(")[0]
+            if base in ("H", "O") or base in keep_valence:
+                L.append("  %s %s" % (name, _tok(v)))
+        for b in bases:
+            if b not in keep_valence:
+                L.append("  %s %s" % (b, "%.15g" % sums[b]))
+        mod.append("\n".join(L))
+    return "\n".join(mod) + "\nEND\n"
+
+
+def check_element_inventory(P1, Dx, what):
+    """after a SOLUTION_MODIFY the solution holds every element exactly once: summed over bare and valence entries its
+    total equals the total handed over (1e-11: the sums are formed from 14-digit numbers)"""
+    try:
+        Px = R.parse(Dx)
+    except R.RawParseError as e:
+        raise Violation("modify_inventory", "%s: dump after SOLUTION_MODIFY is not well-formed: %s" % (what, e))
+    for key, e in P1.items():
+        if key[0] != "SOLUTION":
+            continue
+        if key not in Px:
+            raise Violation("modify_inventory", "%s: SOLUTION %d vanished" % (what, key[1]))
+        a, b = element_totals(e), element_totals(Px[key])
+        for el in sorted(set(a) | set(b)):
+            x, y = a.get(el, 0.0), b.get(el, 0.0)
+            if abs(x - y) > 1e-11 * max(abs(x), abs(y)) + 1e-30:
+                raise Violation("modify_inventory", "%s: SOLUTION %d holds %.15g mol %s after SOLUTION_MODIFY, %.15g mol were "
+                                "handed over (entries now: %s)" % (what, key[1], y, el, x,
+                                {k: v for k, v in R.nv(Px[key].get("totals")).items() if k.split("(")[0] == el.split("(")[0]}))
+        for k in ("total_h", "total_o", "cb"):
+            x, y = float(e[k]), float(Px[key][k])
+            if abs(x - y) > 1e-12 * max(abs(x), abs(y)) + 1e-30:
+                raise Violation("modify_inventory", "%s: SOLUTION %d -%s is %.15g after SOLUTION_MODIFY, %.15g handed over" % (what, key[1], k, y, x))
+
+
 def check_case(case, ctx):
     insts = []
 
@@ -605,7 +678,7 @@ def check_case(case, ctx):
 def _check(case, ctx, inst):
     redox = case["redox"]
     # generator-side labels: only those that are not measured again on the dump (the evidence histogram keeps 80 labels)
-    classes = [l for l in case.get("labels", []) if l.startswith(("profile=", "redox=", "follow=", "history=0", "hist_", "excluded_", "known_"))]
+    classes = [l for l in case.get("labels", []) if l.startswith(("profile=", "redox=", "follow=", "history=0", "hist_", "excluded_", "known_", "cell_number_digits"))]
     if any("-cvode true" in s for s in case["sims"]):
         # Pre-flight for CVODE kinetics: when an equilibrium call inside the integrator does not converge, CVODE keeps
         # retrying with smaller steps and one follow-up can run for > 20 min (seen on the original instance, nothing to do
@@ -630,6 +703,11 @@ def _check(case, ctx, inst):
         classes.append("dump_not_parsed_by_rawparse")
     kinds, sub = measure(P1)
     F1 = fields(D1)
+    # lengths of the names in the dump's name/value lists (the writer's column widths are 21, 23, 25, 27, 29)
+    for n in sorted({len(p[-1].split("#")[0]) for p in F1 if not p[-1].startswith(("-", "row"))}):
+        if n >= 15:
+            classes.append("list_name_length=%s" % (n if n in (21, 23, 25, 27, 29) else "15-20" if n <= 20 else "22-28 even" if n <= 28 else ">=30"))
+    classes[:] = list(dict.fromkeys(classes))
 
     # (5a) Phreeqc copy and Serializer on the original: dump_raw text before == after
     R1 = raw_dump(A)
@@ -716,6 +794,22 @@ def _check(case, ctx, inst):
     Rb2 = raw_dump(B)
     if Rb2 != Rb:
         raise Violation("storagebin", "dump_raw after phreeqc2cxxStorageBin -> cxxStorageBin2phreeqc differs: %s" % first_diff(Rb, Rb2))
+
+    # (4b) SOLUTION_MODIFY with *element* totals (bare names, valence states summed) + total H, total O, charge onto the
+    # restored solutions themselves (which hold their elements per valence state), and the mixed variant (every second
+    # element by valence state): no errors, and afterwards every element is held exactly once with the amount handed over
+    Eb = Eb2 = None
+    if P1:
+        Eb, Eb2 = inst(), inst()
+        for I, mixed, what in ((Eb, False, "element totals"), (Eb2, True, "element + valence totals")):
+            rc = I.run_string(D1)
+            if rc == 0:
+                rc = I.run_string(modify_elements_input(P1, mixed))
+            if rc != 0 or I.errors().strip():
+                raise Violation("read_errors", "SOLUTION_MODIFY with %s gave errors: %s" % (what, I.errors()[:600]))
+            check_element_inventory(P1, dump_of(I, "dump"), what)
+        if any(multi_valence_elements(e) for k, e in P1.items() if k[0] == "SOLUTION"):
+            classes.append("modify_element_totals_onto_multi_valence_solution")
 
     poised = redox in ("inert", "o2")
     stats = {}
@@ -804,6 +898,9 @@ def _check(case, ctx, inst):
                     ok = all(X2.run_string(s) == 0 for s in case["sims"]) and X2.serialize_into(Y, 0, nmax) is not None
                     if ok and extra.strip():
                         ok = Y.run_string(extra + "END\n") == 0
+                elif name == "solution_modify_elements":
+                    Dp = perturb(D1, eps)
+                    ok = Y.run_string(Dp) == 0 and Y.run_string(modify_elements_input(R.parse(Dp), eps > 5e-13)) == 0
                 else:
                     pl, rs = modify_input(perturb(D1, eps), R.parse(perturb(D1, eps)))
                     ok = Y.run_string(pl) == 0 and Y.run_string(rs) == 0
@@ -842,6 +939,9 @@ def _check(case, ctx, inst):
                 if rc != 0 or E.errors().strip():
                     raise Violation("read_errors", "SOLUTION_MODIFY / RAW restore gave errors: %s" % E.errors()[:600])
                 route("solution_modify", E, E2, E2.run_string(place2) == 0 and E2.run_string(restore2) == 0)
+        # (4b) follow-up after restoring element totals; replica: the mixed variant
+        if Eb is not None:
+            route("solution_modify_elements", Eb, Eb2, True)
     if stats:
         # largest follow-up deviation seen, in units of the tolerance (one entry per shard)
         ctx.extra["followup_max_deviation_over_tolerance"] = [max([(ctx.extra.get("followup_max_deviation_over_tolerance") or [0.0])[0]] + list(stats.values()))]
